@@ -74,6 +74,8 @@ def choose_overload(name, candidates, engine, receiver, context, args, kwargs):
     no_kwargs = None
     if receiver is not utils.NO_VALUE:
         args = (receiver,) + args
+    if len({c.no_kwargs for level in candidates for c in level}) > 1:
+        raise_ambiguous()
     for level in candidates:
         new_level = []
         for c in level:
